@@ -41,3 +41,42 @@ def run(ctx):
         ctx.check(ok, "C12.from_shares.mmr", s.path, "partition sizes from merkle_mountain_range_sizes(len, subtree_width)", key="C12.from_shares.mmr")
         rl = return_leaves(ctx, s)
         ctx.check(has_all(rl, ["call:*simple_hash_from_byte_vectors", "call:*push_leaf", "a1", "a2"]), "C12.from_shares.root", s.path, "commitment = merkle root over the NMT roots of the leaf sets", key="C12.from_shares.root")
+
+    # the width arithmetic of ADR-013 rounds UP twice and takes a minimum: these are the shape of
+    # the code, not its numeric result (which stays undecided)
+    from engine.rules import expand_nodes
+    from engine.mir import std_tail
+    w = ctx.anchor(T + "blob::commitment::subtree_width")
+    if w:
+        rl = return_leaves(ctx, w)
+        ctx.check(has_all(rl, ["call:*round_up_to_power_of_2", "call:*blob_min_square_size", "a1", "a2"]) and has_leaf(rl, ["call:*Ord::min", "call:*::min"]),
+                  "C12.width.min", w.path, "subtree width = min(round_up_to_power_of_2(ceil(shares / threshold)), blob_min_square_size(shares))", key="C12.width.min")
+        # ceil(shares / threshold): a division plus a +1 taken when the remainder is non-zero (or div_ceil)
+        tails = set()
+        lits = set()
+        for x in exit_sites(w):
+            for n in expand_nodes(ctx, x["expr"], depth=0):
+                if n[0] == "call":
+                    tails.add(std_tail(n[2]) or n[2])
+                if n[0] == "bin":
+                    tails.add("bin:" + n[1])
+        sl = set()
+        for b in range(w.n):
+            if w.blocks[b]["t"]["k"] == "switch":
+                sl |= ctx.leaves(w.switch_discr_expr(b))
+        on_remainder = has_leaf(sl, "call:*is_multiple_of") or has_leaf(sl, "call:*Rem::rem") or any(t.startswith("bin:Rem") for t in tails)
+        ok = any(t.endswith("::div_ceil") for t in tails) or (any(t.startswith("bin:Div") for t in tails) and any(t.startswith("bin:Add") for t in tails) and on_remainder)
+        ctx.check(ok, "C12.width.ceil-div", w.path, "shares / threshold is rounded up (+1 when the remainder is non-zero, or div_ceil)", key="C12.width.ceil-div")
+    m = ctx.anchor(T + "blob::commitment::blob_min_square_size")
+    if m:
+        tails = set()
+        adds = False
+        for x in exit_sites(m):
+            for n in expand_nodes(ctx, x["expr"], depth=0):
+                if n[0] == "call":
+                    tails.add(std_tail(n[2]) or n[2])
+                if n[0] == "bin" and n[1].startswith("Add"):
+                    adds = True
+        up = any(t.endswith("::ceil") for t in tails) or (any("isqrt" in t for t in tails) and adds)
+        ctx.check(any("sqrt" in t for t in tails) and up and any("round_up_to_power_of_2" in t for t in tails), "C12.minsquare.ceil-sqrt", m.path,
+                  "minimum square size = round_up_to_power_of_2(ceil(sqrt(shares))): the square root is rounded up (ceil, or isqrt plus a correction)", key="C12.minsquare.ceil-sqrt")
